@@ -1937,6 +1937,11 @@ stream_decoder_mt_memconfig(void *coder_ptr, uint64_t *memusage,
 			return LZMA_MEMLIMIT_ERROR;
 
 		coder->memlimit_stop = new_memlimit;
+
+		// memlimit_threading must not exceed memlimit_stop.
+		// stream_decoder_mt_init() ensures this too.
+		if (coder->memlimit_threading > coder->memlimit_stop)
+			coder->memlimit_threading = coder->memlimit_stop;
 	}
 
 	return LZMA_OK;
